@@ -120,3 +120,17 @@ Proof. exact dumpable'_iff. Qed.
 Check C11_kf3b_class : forall t, TInv t -> kf2_C11 t = false -> (dumpable' t <-> dumpable t = true /\ kf3b_C11 t = false).
 Print Assumptions C11_kf3b_class.
 
+From Avt Require Import Proofs.Audit2Misc.
+(** Proofs/Audit2Misc.v (second statement audit): the findings' classes are not vacuous *)
+(** failure INSIDE the narrowed class of KF-C11-1: six reachable states in the class on which dump-then-restore does not reproduce the terminal *)
+Theorem C11_kf1_fails_inside : forall w, In w kf1_witnesses -> exists v d r o, runM (vt_new 8 5 None) (map Feed w ++ [Flush]) = Ok v /\ kf1_C11_narrow (vterm v) = true /\ vt_dump v = Ok d /\ feed_str (vt_new (cols (vterm v)) (rows (vterm v)) (Some 3%N)) d = Ok (r, o) /\ holds_C11 v r = false.
+Proof. exact C11_kf1_narrow_witnesses. Qed.
+Check C11_kf1_fails_inside : forall w, In w kf1_witnesses -> exists v d r o, runM (vt_new 8 5 None) (map Feed w ++ [Flush]) = Ok v /\ kf1_C11_narrow (vterm v) = true /\ vt_dump v = Ok d /\ feed_str (vt_new (cols (vterm v)) (rows (vterm v)) (Some 3%N)) d = Ok (r, o) /\ holds_C11 v r = false.
+Print Assumptions C11_kf1_fails_inside.
+
+(** failure inside the class of KF-C11-2 (for kf3b see C11_kf3b_witness in Proofs/C11Witness.v, kept out of this file's dependency cone because a 65536-column terminal is slow to re-check; for kf3_C11 - more than 65534 columns - no Coq witness is attempted, the implementation witness is the harness's kf3 mode) *)
+Theorem C11_kf2_fails_inside : exists v d r o, runM (vt_new 40 10 None) kf2_witness_ops = Ok v /\ kf2_C11 (vterm v) = true /\ kf1_C11 (vterm v) = false /\ kf3_C11 (vterm v) = false /\ vt_dump v = Ok d /\ feed_str (vt_new (cols (vterm v)) (rows (vterm v)) None) d = Ok (r, o) /\ holds_C11 v r = false.
+Proof. exact C11_kf2_witness. Qed.
+Check C11_kf2_fails_inside : exists v d r o, runM (vt_new 40 10 None) kf2_witness_ops = Ok v /\ kf2_C11 (vterm v) = true /\ kf1_C11 (vterm v) = false /\ kf3_C11 (vterm v) = false /\ vt_dump v = Ok d /\ feed_str (vt_new (cols (vterm v)) (rows (vterm v)) None) d = Ok (r, o) /\ holds_C11 v r = false.
+Print Assumptions C11_kf2_fails_inside.
+
